@@ -50,6 +50,12 @@ def run(pid, tier, seed, res, seeds_extra=None, only=None):
         dict(kind="exec", run_debug=True, target=[["id", "n0"]], exclude=None, root=None, in_hypothesis=True),
         dict(kind="exec", run_debug=True, target=[["id", "n0"], ["id", "n1"]], exclude=None, root=None, in_hypothesis=True),
         dict(kind="exec", run_debug=False, target=None, exclude=[["id", "n1"]], root=None, in_hypothesis=True)]))
+    # a debug node with a setup parent AND an ordinary parent: pulled into a run only when both are part of it
+    cases.append(dict(kind="graph", n=4, edges=[[0, 2], [1, 2], [0, 3]], prios=[0, 0, 0, 0], debug=[2], setup=[1], tags={}, consts={}, queries=[
+        dict(kind="exec", run_debug=True, target=[["id", "n0"]], exclude=None, root=None, in_hypothesis=True),
+        dict(kind="exec", run_debug=True, target=[["id", "n3"]], exclude=None, root=None, in_hypothesis=True),
+        dict(kind="exec", run_debug=True, target=[["id", "n0"], ["id", "n1"]], exclude=None, root=None, in_hypothesis=True),
+        dict(kind="exec", run_debug=False, target=[["id", "n0"], ["id", "n1"]], exclude=None, root=None, in_hypothesis=True)]))
     # priorities beyond 2**53 that differ by one (exact integer comparison, no float rounding)
     cases.append(dict(kind="graph", n=4, edges=[[2, 3]], prios=[2 ** 53, 2 ** 53 + 1, 2 ** 60 + 2, -(2 ** 60) - 3], debug=[], setup=[], tags={}, consts={}, queries=[
         dict(kind="call", run_debug=False, target=None, exclude=None, root=None, in_hypothesis=True)]))
